@@ -24,14 +24,14 @@ theorem inv_mgr_newReq {s : State} {rest : List Msg} (h : Inv s) (hm : s.mphase 
     (hb : s.mbox = .newReq :: rest) : Inv (handle { s with mbox := rest } .newReq) := by
   inv_destruct h
   have hreg := reg_cases s
-  simp only [handle]
+  simp only [handle, cancelLive, hookCancel, ingest, procTerminations]
   split <;> inv_close
 
 theorem inv_mgr_pause {s : State} {rest : List Msg} (h : Inv s) (hm : s.mphase = .idle)
     (hb : s.mbox = .pause :: rest) : Inv (handle { s with mbox := rest } .pause) := by
   inv_destruct h
   have hreg := reg_cases s
-  simp only [handle]
+  simp only [handle, cancelLive, hookCancel, ingest, procTerminations]
   (repeat' split) <;> inv_close
 
 theorem inv_mgr_unpause {s : State} {rest : List Msg} (h : Inv s) (hm : s.mphase = .idle)
@@ -39,7 +39,7 @@ theorem inv_mgr_unpause {s : State} {rest : List Msg} (h : Inv s) (hm : s.mphase
   inv_destruct h
   have hreg := reg_cases s
   have hrs := rstate_cases s
-  simp only [handle]
+  simp only [handle, cancelLive, hookCancel, ingest, procTerminations]
   (repeat' split) <;> inv_close
 
 theorem inv_mgr_getTask {s : State} {rest : List Msg} (h : Inv s) (hm : s.mphase = .idle)
@@ -52,7 +52,7 @@ theorem inv_mgr_getTask {s : State} {rest : List Msg} (h : Inv s) (hm : s.mphase
     · simp [hw] at k1
   inv_destruct h
   have hreg := reg_cases s
-  simp only [handle]
+  simp only [handle, cancelLive, hookCancel, ingest, procTerminations]
   (repeat' split) <;> inv_close
 
 theorem inv_mgr_cancel {s : State} {rest : List Msg} {api : Bool} (h : Inv s) (hm : s.mphase = .idle)
@@ -63,13 +63,13 @@ theorem inv_mgr_cancel {s : State} {rest : List Msg} {api : Bool} (h : Inv s) (h
                                outbox := s.outbox ++ [{ kind := .cancel, peer := s.peer }],
                                waiters := (if api then s.waiters + 1 else s.waiters), rq := s.rq, apiLog := s.apiLog }
           (if api then some Err.cc else none) := by
-      simp only [handle, hl]
+      simp only [handle, cancelLive, hookCancel, ingest, procTerminations, hl]
       cases api <;> simp
     rw [this]
     exact inv_cancelOnError h hm hl hb rfl rfl
   · inv_destruct h
     have hreg := reg_cases s
-    simp only [handle]
+    simp only [handle, cancelLive, hookCancel, ingest, procTerminations]
     (repeat' split) <;> inv_close
 
 theorem inv_mgr_release (hf1 : ReqLifecycleSpec.releasePauseGuardChecksCtx = true) {s : State} {rest : List Msg}
@@ -84,7 +84,7 @@ theorem inv_mgr_release (hf1 : ReqLifecycleSpec.releasePauseGuardChecksCtx = tru
   inv_destruct h
   have hreg := reg_cases s
   have hrs := rstate_cases s
-  simp only [handle, releaseKeepsPaused, terminate, hf1]
+  simp only [handle, cancelLive, hookCancel, ingest, procTerminations, releaseKeepsPaused, terminate, hf1]
   (repeat' split) <;> inv_close
 
 /-- popping a `responses` message that has no effect on the request -/
@@ -115,7 +115,7 @@ theorem inv_mgr_responses {s : State} {rest : List Msg} {p st it : Nat} {hk : Bo
     (hm : s.mphase = .idle) (hb : s.mbox = .responses p st it hk :: rest) :
     Inv (handle { s with mbox := rest } (.responses p st it hk)) := by
   have o2 := h.o2
-  simp only [handle]
+  simp only [handle, cancelLive, hookCancel, ingest, procTerminations]
   by_cases hl : s.reg = .live
   · have hl1 : (s.reg == .live) = true := by simpa using hl
     have hl2 : (s.reg != .live) = false := by simpa using hl
